@@ -1415,11 +1415,37 @@ def r20_1b(ctx: Ctx, rep: Report, sl: Set[Func]) -> None:
                 if isinstance(par, ast.Subscript) and par.value is n and isinstance(n.slice, ast.Constant) and isinstance(n.slice.value, int) and isinstance(n.value, ast.Name):
                     # x[0][k]: the inner x[0] is judged on its own as well
                     pass
+                # a lookup written inside a local function is judged once, as a statement of that function
+                from ..model import in_nested_def as _in_nested
+
+                if _in_nested(n, f.node) and any(g_.parent is f for g_ in sl):
+                    continue
                 n_sub += 1
                 rep.instance()
                 why = dis.subscript(f, n)
                 if why is None:
                     why = dis._bucket_key_rule(f, n)
+                if why is None and f.parent is not None and isinstance(n.slice, ast.Name) and n.slice.id in f.params and isinstance(n.value, ast.Name) and n.value.id not in f.params:
+                    # `def build(key): ... table[key]` inside a method, called with constant keys: the lookup is judged where
+                    # the local function is called, with each constant, against the enclosing function's `table`
+                    par_f = f.parent
+                    sites_ = [c_ for c_ in own_nodes(par_f.node) if isinstance(c_, ast.Call) and isinstance(c_.func, ast.Name) and c_.func.id == f.name]
+                    escapes = any(isinstance(x_, ast.Name) and x_.id == f.name and isinstance(x_.ctx, ast.Load) and not (isinstance(getattr(x_, "_parent", None), ast.Call) and getattr(x_, "_parent").func is x_) for x_ in own_nodes(par_f.node))
+                    whys_ = []
+                    for c_ in sites_:
+                        a_ = dis._arg_for(f, c_, n.slice.id)
+                        if not (isinstance(a_, ast.Constant) and isinstance(a_.value, (str, int))):
+                            whys_ = [None]
+                            break
+                        fake = ast.Subscript(value=ast.Name(id=n.value.id, ctx=ast.Load()), slice=ast.Constant(value=a_.value), ctx=ast.Load())
+                        ast.copy_location(fake, c_)
+                        ast.fix_missing_locations(fake)
+                        fake._parent = getattr(c_, "_parent", None)  # type: ignore[attr-defined]
+                        fake.value._parent = fake  # type: ignore[attr-defined]
+                        fake.slice._parent = fake  # type: ignore[attr-defined]
+                        whys_.append(dis.subscript(par_f, fake))
+                    if sites_ and not escapes and all(whys_):
+                        why = f"`{f.name}` is only called with constant keys ({len(sites_)} sites) and each lookup succeeds where it is called: {whys_[0]}"
                 if why is None:
                     fk = fact_for_site(f, n)
                     if fk:
